@@ -1097,11 +1097,22 @@ func (w *world) hook(f *simfs.FS, ev *simfs.Event) error {
 		tear = int64(r.Fault.Choose(int(ev.Len), "tear"))
 	}
 	dst := filepath.Join(r.Dir, fmt.Sprintf("img%d", len(w.images)))
-	if err := f.Image(dst, ev, tear); err != nil {
+	if f.Shadow != nil {
+		// observing power-loss configuration: unsynced data of WAL/TSM/tombstone/fields files is lost
+		tear = 0
+		if err := f.PowerLossImage(dst, ev); err != nil {
+			r.Violate("machinery", "image", "cannot build power-loss image: %v", err)
+			return nil
+		}
+		r.Probe("fault_powerloss_m2")
+	} else if err := f.Image(dst, ev, tear); err != nil {
 		r.Violate("machinery", "image", "cannot build crash image: %v", err)
 		return nil
 	}
 	kind := ev.Op + ":" + fileKind(ev.Path)
+	if f.Shadow != nil {
+		kind = "powerloss:" + kind
+	}
 	if tear > 0 {
 		kind = "torn-" + kind
 	}
@@ -1174,6 +1185,13 @@ func exec(r *hx.Run, prog []json.RawMessage) {
 			return
 		}
 		if w.imgCap > 0 {
+			if r.CfgBool("powerloss") {
+				fs.Shadow = simfs.NewShadow(func(rel string) bool {
+					k := fileKind(rel)
+					return k == "wal" || k == "tsm" || k == "tsmtmp" || k == "tombstone" || k == "fields"
+				})
+				fs.Shadow.DataOnly = true
+			}
 			fs.Hook = w.hook
 		}
 		var wg sync.WaitGroup
